@@ -382,9 +382,12 @@ def run(ck, pg, np, pd, models, c01, c02, c03, PST, LST, MST, domain_values, cal
                 if twin is not None and "1d" in results:
                     s_, tw = call(np, lambda a: twin.pressure_at(a, **bkw, **kw_l, **kw_p), np.array(ls))
                     gl = results["1d"]
+                    # (tolerance: the conditioning-aware one of the SI oracle — the twin's kelvin temperature differs from the original's in the last bit
+                    #  (-182.7 + 273.15), and a closed-form inverse near saturation amplifies that: DA at n/n_m = 0.99999 by 1e6; false alarm of the sweep
+                    #  after round 7, quick seed 5)
                     if s_ != "ok" and not closed:
                         pass            # (a numerical inverse may report failure)
-                    elif s_ != "ok" or len(L.flat(np, tw)) != len(gl) or any(t is not None and not close_p(a, b, max(t, 1e-10) if not closed or name in QUAD_INV else 1e-10)
+                    elif s_ != "ok" or len(L.flat(np, tw)) != len(gl) or any(t is not None and not close_p(a, b, max(t, 1e-10))
                                                                                for a, b, t in zip(gl, L.flat(np, tw), tols)):
                         fail({**base, "accessor": "pressure_at", "oracle": "twin"},
                              {**det, "argument": ls, "got": gl, "twin_temperature": [float(twin._temperature), twin.temperature_unit], "twin": L.flat(np, tw) if s_ == "ok" else repr(tw)[:300]})
